@@ -38,7 +38,8 @@ RULE = ("bridge: random molecular graphs (1-10 nodes; element symbols incl. arom
         "parser-style labels/is_labeled attributes, labelled placeholder nodes from parsed '{g}' patterns, unsupported labels "
         "(2.5, tuple, list), unknown symbols, self loops; ignore_aam both ways); m2g: mol_to_graph on RDKit molecules read from SMILES "
         "(incl. dative bonds, explicit H, atom maps); wl/cmp: graph pairs (renumbered+shuffled copies, single-attribute mutants, "
-        "independent graphs) for the WL hash and mol_compare; smiles: RDKit-valid neutral molecules for the SMILES round trip. "
+        "independent graphs) for the WL hash and mol_compare; smiles: RDKit-valid neutral molecules for the SMILES round trip, each followed by a history step on the same graph object "
+        "(isovalent element swap and/or exchanged map numbers, counts unchanged, exported again and re-read). "
         "thorough additionally enumerates every 2-node bridge input over {C,n,Cl} x 7 edge values x 4^2 map-number settings x "
         "placeholder/ignore_aam flags (4032 cases) and every 3-node graph over {C,O} x {no edge,1,2}^3 against its 6 renumberings (1296). "
         "non-trivial = bridge case with >= 2 nodes and >= 1 edge, or a wl/cmp case with >= 2 nodes, or an m2g molecule with a bond; "
@@ -454,6 +455,33 @@ def smiles_roundtrip(c):
     if not iso:
         res["status"] = "NOT-ISOMORPHIC"
         res["reread"] = ct.graph_py(g2)
+        return res
+    # history on the SAME graph object: edit it in place WITHOUT changing node or edge counts (isovalent element
+    # swap on a non-aromatic atom, and/or two map numbers exchanged) and export again - the second SMILES must
+    # describe the edited graph (nothing memoised on the graph, in the module or keyed by size may survive the edit)
+    sub = {"C": "Si", "N": "P", "O": "S", "F": "Cl", "Cl": "Br", "Br": "I"}
+    cands = [n for n in g.nodes if g.nodes[n]["symbol"] in sub and all(g[n][v]["bond"] != 1.5 for v in g[n])]
+    edits = []
+    if cands:
+        n = rng.choice(cands)
+        g.nodes[n]["symbol"] = sub[g.nodes[n]["symbol"]]
+        edits.append("symbol of node %r -> %s" % (n, g.nodes[n]["symbol"]))
+    mapped = [n for n in g.nodes if "aam" in g.nodes[n]]
+    if with_aam and len(mapped) >= 2:
+        a, b = rng.sample(mapped, 2)
+        g.nodes[a]["aam"], g.nodes[b]["aam"] = g.nodes[b]["aam"], g.nodes[a]["aam"]
+        edits.append("map numbers of nodes %r and %r exchanged" % (a, b))
+    if edits:
+        try:
+            smi2 = graph_to_smiles(g, ignore_aam=c["ignore_aam"], canonical=c["canonical"])
+            g3 = smiles_to_graph(smi2)
+        except Exception:
+            return res        # the edited molecule is outside what RDKit writes/re-reads: nothing to conclude
+        if not nx.is_isomorphic(g, g3, node_match=_node_match(with_aam), edge_match=lambda a, b: a["bond"] == b["bond"]):
+            res["status"] = "NOT-ISOMORPHIC-AFTER-EDIT"
+            res["edits"] = edits
+            res["written2"] = smi2
+            res["graph2"] = ct.graph_py(g)
     return res
 
 
@@ -624,7 +652,7 @@ def nontrivial(c, out):
     if c["op"] in ("wl", "cmp"):
         return c["graphs"][-1].number_of_nodes() >= 2
     if c["op"] == "smiles":
-        return out[1]["status"] == "ok"
+        return out[1]["status"] in ("ok", "NOT-ISOMORPHIC-AFTER-EDIT")
     return True
 
 
@@ -699,6 +727,10 @@ def _py_invariants(c, out):
         if st == "NOT-ISOMORPHIC":
             msgs.append("SMILES round trip: %r was written as %r and re-read to a non-isomorphic graph"
                         % (c["smiles"], out[1]["written"]))
+        elif st == "NOT-ISOMORPHIC-AFTER-EDIT":
+            msgs.append("SMILES round trip on one graph object: %r exported as %r, then edited in place (%s) and exported again "
+                        "as %r, which re-reads to a graph that is not isomorphic to the edited graph"
+                        % (c["smiles"], out[1]["written"], "; ".join(out[1]["edits"]), out[1]["written2"]))
         elif st == "WRITE-FAILED":
             msgs.append("graph_to_smiles raised %s on the graph of the RDKit-valid molecule %r" % (out[1]["error"], c["smiles"]))
         elif st == "aam-not-ignored":
